@@ -142,8 +142,8 @@ def prepare_sources(pid, unit, scratch):
     srcs = []
     subst = unit.get('subst', {})
     for rel, pairs in subst.items():
-        if unit.get('kind') != 'B':
-            raise Inconclusive('textual substitution is only allowed in bounded (B) units')
+        if unit.get('kind') != 'B' and not unit.get('subst_reason'):
+            raise Inconclusive('textual substitution needs kind B or a stated semantics-preserving reason (subst_reason)')
         text = open(os.path.join(REPO, rel)).read()
         for a, b, cnt in pairs:
             if text.count(a) != cnt:
@@ -510,7 +510,8 @@ def run_unit(pid, unit, tier, keep=False, verbose=False):
         res.update(obligations=n_ob, discharged=n_ok, covers_expected=covers, covers_hit=cov_hit, canary_ok=canary)
         res['samples'] = [{'obligation': r.get('property'), 'description': r.get('description'), 'status': r.get('status')}
                           for r in results[:: max(1, len(results) // 4)][:4]]
-        if undecided:
+        res['undecided'] = undecided
+        if undecided and not fails:
             raise Inconclusive('%d obligations left undecided by the solver (status neither SUCCESS nor FAILURE)' % undecided)
         if fails:
             res['status'] = 'fail'
